@@ -22,6 +22,7 @@ type CMsg struct {
 	Limit  uint32    `json:"limit,omitempty"`
 	Data   []byte    `json:"data,omitempty"` // d payload, f message, raw bytes
 	Tail   []byte    `json:"tail,omitempty"` // surplus bytes appended inside the frame
+	Over   bool      `json:"over,omitempty"` // raw message whose declared body exceeds the limit
 }
 
 func (m CMsg) body() (byte, []byte) {
